@@ -528,8 +528,9 @@ CatalogFragment::CatalogFragment(DFS::Format format,
     if (address & 0x20000)
       {
 	// We sign-extend just two digits (unlike the example above) ,
-	// as this is what the BBC model B DFS does.
-	return 0xFF0000 | address;
+	// as this is what the BBC model B DFS does.  Bits 0 to 16
+	// keep their values, so we set only bits 18 to 23.
+	return 0xFC0000 | address;
       }
     else
       {
